@@ -266,6 +266,12 @@ def st_session(draw):
     if sum(a * a + b * b for a, b in amps) < 1e-3:
         amps[0] = [1.0, 0.0]
     ops: List[Any] = []
+    if draw(st.integers(0, 7)) == 0:
+        # many single-letter parity measurements (measured in place) in one subroutine, no flush in between
+        for _ in range(draw(st.integers(17, 22))):
+            q = draw(st.integers(0, n - 1))
+            ops.append(["parity", [q], ("-" if draw(st.booleans()) else "") + draw(st.sampled_from("XYZ")), draw(st.integers(0, 1))])
+        return {"kind": "session", "flavour": fl, "n": n, "state": amps, "ops": ops, "long": True}
     for _ in range(draw(st.integers(1, 4))):
         k = draw(st.integers(0, 9))
         if k <= 2:
@@ -374,6 +380,8 @@ def shard(ctx: Ctx) -> None:
         labels = ["session", case["flavour"], f"ops:{len([k for k in kinds if k != 'flush'])}"]
         if kinds.count("parity") >= 2:
             labels.append("session:>=2-parity")
+        if case.get("long"):
+            labels.append("session:17+-in-place-measurements-in-one-subroutine")
         if any(op[0] == "toffoli" and list(op[1]) != sorted(op[1]) for op in case["ops"]):
             labels.append("session:permuted-toffoli")
         stt.case(case, len([k for k in kinds if k != "flush"]) >= 2, labels, sample=case if len(case["ops"]) <= 3 else None)
